@@ -433,7 +433,16 @@ def check_modules_method(b: Builder, res: Result, mname: str, union_param: bool)
             verdict(res, r, "C16.R4", K(m, "[regex filter stored]"), ok, "exactly one regex filter built from the supplied pattern is stored" if ok else f"`{show(v)[:80]}` is not the single regex filter of the supplied pattern", e.where, kind="structural")
         if one is not None and e is evs[-1]:
             if union_param:
-                dup_free = lambda pc: any((classify_dup(b, t, pol, p, enc, enc.pc(pc)) or ("",))[0] == "ok" for t, pol in facts(pc))  # noqa: E731
+                def dup_free(pc: tuple) -> bool:
+                    pcf = enc.pc(pc)
+                    for t, pol in facts(pc):
+                        got = classify_dup(b, t, pol, p, enc, pcf)
+                        if got is not None and got[0] == "ok":
+                            return True
+                        if got is None and classify_dup(b, t, not pol, p, enc, pcf) is None and mentions(t, b.store) and mentions(t, p):
+                            return True  # an unrecognised relation between the argument and the stored names: judged (as undecided) by the duplicate-guard obligation
+                    return False
+
                 check_rejections(res, r, enc, one, "not exactly one layer is waiting for its modules or a supplied module is already assigned", dup_free)
             else:
                 check_rejections(res, r, enc, one, "not exactly one layer is waiting for its modules")
@@ -456,6 +465,9 @@ def check_dup_guard(b: Builder, res: Result, r: Run, m: FuncInfo, e: Event, p: T
         verdict(res, r, "C16.R3", key, False, bads[0][1], e.where, kind="dominance")
     elif verdicts:
         res.undecide("C16.R3", key, verdicts[0][1], e.where)
+    elif [t for t, _pol in facts(e.pc) if mentions(t, b.store) and mentions(t, p)]:
+        t = [t for t, _pol in facts(e.pc) if mentions(t, b.store) and mentions(t, p)][0]
+        res.undecide("C16.R3", key, f"the store is guarded by `{show(t)[:140]}`, which relates the supplied modules to the stored definitions in a way that is not recognised as a duplicate check", e.where)
     else:
         verdict(res, r, "C16.R3", key, False, f"no duplicate-module guard dominates the store (it is reached under `{show_pc(e.pc)[:160]}`)", e.where, kind="dominance")
 
@@ -664,6 +676,9 @@ def check_readers(b: Builder, res: Result) -> None:
             if x[0] == "slice" and any(y[0] == "comp" and mentions(y, b.store) for y in subterms(x[1])):
                 problems.append("only a slice of the layers is listed")
     ok = walks_all and not problems and len(st.returns) == 1
+    if not ok and not problems and len(st.returns) == 1 and any(mentions(v, b.store) for _pc, v, _h in st.returns):
+        res.undecide("C16.R4", K(m, "lists all layers"), f"the way str(architecture) walks the layer mapping is not recognised: `{show(st.returns[0][1])[:160]}`", f"{m.relpath}:{m.node.lineno}")
+        return
     verdict(res, st, "C16.R4", K(m, "lists all layers"), ok, "str(architecture) lists every layer with its modules in definition order" if ok else "str(architecture) does not list all layers and modules" + (": " + problems[0] if problems else ""), f"{m.relpath}:{m.node.lineno}", kind="structural")
 
 
